@@ -20,7 +20,7 @@ import (
 )
 
 func init() {
-	monitors["C03"] = &monitor{scenarios: c03Scenarios, run: c03Run, scenarioLimit: 60 * time.Second}
+	monitors["C03"] = &monitor{scenarios: c03Scenarios, run: c03Run, scenarioLimit: 240 * time.Second}
 }
 
 func c03Scenarios(cfg runCfg) []Scenario {
